@@ -556,7 +556,132 @@ func (g *Gen) Spec() *Spec {
 			op.Params = append(ps, &Param{Name: "body", In: "body", Required: true, Schema: &Schema{Ref: "Outer"}})
 		}
 	}
+	g.decorate(sp)
 	return sp
+}
+
+var extKeys = []string{"x-order", "x-internal", "x-owner", "x-flags"}
+
+func (g *Gen) extVal() DVal {
+	switch g.R.Intn(4) {
+	case 0:
+		return DVal{Kind: 1, S: g.R.Pick([]string{"alpha", "beta", "7"})}
+	case 1:
+		return DVal{Kind: 2, I: int64(g.R.Intn(3))}
+	case 2:
+		return DVal{Kind: 3, B: g.R.Chance(1, 2)}
+	}
+	return DVal{Kind: 4, L: []DVal{{Kind: 1, S: "a"}, {Kind: 2, I: int64(g.R.Intn(2))}}}
+}
+
+// extSlots: every place of the document whose vendor extensions `swagger diff` looks at
+func (sp *Spec) extSlots() []*Exts {
+	out := []*Exts{&sp.Ext, &sp.InfoExt}
+	if sp.Contact != nil {
+		out = append(out, sp.Contact)
+	}
+	if sp.License != nil {
+		out = append(out, sp.License)
+	}
+	for i := range sp.TagDecls {
+		out = append(out, &sp.TagDecls[i].Ext)
+	}
+	for i := range sp.SecDefs {
+		out = append(out, &sp.SecDefs[i].Ext)
+	}
+	for _, pi := range sp.Paths {
+		out = append(out, &pi.Ext)
+		for _, p := range pi.Params {
+			out = append(out, &p.Ext)
+		}
+		for _, op := range pi.Ops {
+			out = append(out, &op.Ext, &op.RespExt)
+			for _, p := range op.Params {
+				out = append(out, &p.Ext)
+			}
+			for _, r := range op.Responses {
+				for i := range r.Headers {
+					out = append(out, &r.Headers[i].Ext)
+				}
+				n := 0
+				for lvl := r.Schema; lvl != nil; lvl = lvl.Items {
+					n++
+				}
+				for len(r.BodyExt) < n {
+					r.BodyExt = append(r.BodyExt, nil)
+				}
+				r.BodyExt = r.BodyExt[:n]
+				lvl := r.Schema
+				for i := 0; i < n; i++ {
+					if lvl.Ref == "" {
+						out = append(out, &r.BodyExt[i])
+					}
+					lvl = lvl.Items
+				}
+			}
+		}
+	}
+	return out
+}
+
+// decorate: contact / license objects, tag and security-scheme declarations, and vendor extensions on a third of the places
+func (g *Gen) decorate(sp *Spec) {
+	if g.R.Chance(1, 2) {
+		sp.Contact = &Exts{}
+	}
+	if g.R.Chance(1, 2) {
+		sp.License = &Exts{}
+	}
+	for _, n := range g.subset([]string{"pets", "store", "admin"}) {
+		sp.TagDecls = append(sp.TagDecls, Named{Name: n})
+	}
+	for _, n := range g.subset([]string{"key", "token"}) {
+		sp.SecDefs = append(sp.SecDefs, Named{Name: n})
+	}
+	for _, slot := range sp.extSlots() {
+		if !g.R.Chance(1, 3) {
+			continue
+		}
+		for _, k := range g.subset(extKeys) {
+			*slot = append(*slot, ExtKV{Key: k, Val: g.extVal()})
+		}
+		g.hit("ext:present")
+	}
+}
+
+// editExt: one extension added, removed or given another value somewhere
+func (g *Gen) editExt(sp *Spec) string {
+	slots := sp.extSlots()
+	slot := slots[g.R.Intn(len(slots))]
+	if len(*slot) > 0 && g.R.Chance(2, 3) {
+		i := g.R.Intn(len(*slot))
+		if g.R.Chance(1, 2) {
+			*slot = append(append(Exts{}, (*slot)[:i]...), (*slot)[i+1:]...)
+			return "ext.del"
+		}
+		old := (*slot)[i].Val
+		for try := 0; try < 8; try++ {
+			nv := g.extVal()
+			if fmt.Sprint(nv.JSON()) != fmt.Sprint(old.JSON()) {
+				cp := append(Exts{}, *slot...)
+				cp[i].Val = nv
+				*slot = cp
+				return "ext.change"
+			}
+		}
+		return ""
+	}
+	for _, k := range extKeys {
+		has := false
+		for _, kv := range *slot {
+			has = has || kv.Key == k
+		}
+		if !has {
+			*slot = append(append(Exts{}, *slot...), ExtKV{Key: k, Val: g.extVal()})
+			return "ext.add"
+		}
+	}
+	return ""
 }
 
 func (g *Gen) objectNoAllOf(depth int, defs []string) *Schema {
